@@ -64,12 +64,28 @@ def ctor_attr_map(prog, clsname):
     return init.params[1:], out
 
 
+def _with_unit_aliases(fi, unit_names):
+    """the unit scale may be held in a local (`scale = self.unit_scale`, hoisted out of a loop): such locals, assigned
+    nothing else in the function, stand for it"""
+    names = list(unit_names)
+    binds = {}
+    for n in ast.walk(fi.node):
+        if isinstance(n, ast.Assign):
+            for t in n.targets:
+                if isinstance(t, ast.Name): binds.setdefault(t.id, []).append(n.value)
+        elif isinstance(n, (ast.AugAssign, ast.For)) and isinstance(n.target, ast.Name):
+            binds.setdefault(n.target.id, []).append(None)
+    for k, vals in binds.items():
+        if len(vals) == 1 and vals[0] is not None and norm(vals[0]) in unit_names: names.append(k)
+    return tuple(names)
+
+
 class ReaderEval(object):
     """symbolic evaluation of the reader statements that follow a destructuring"""
 
     def __init__(self, prog, fi, unit_names=('self.unit_scale',)):
         self.prog, self.fi = prog, fi
-        self.unit_names = unit_names
+        self.unit_names = _with_unit_aliases(fi, unit_names)
         self.env = {}
 
     def expr(self, e):
@@ -227,7 +243,7 @@ class _AliasView(object):
 class WriterEval(object):
     def __init__(self, prog, fi, unit_names=('self.unit_scale',)):
         self.prog, self.fi = prog, fi
-        self.unit_names = unit_names
+        self.unit_names = _with_unit_aliases(fi, unit_names)
         self.vartype = {}      # name -> class (loop variables over typed containers)
         self.alias = {}
         self.alias_pos = {}
@@ -291,11 +307,36 @@ class WriterEval(object):
                 self.alias_pos.setdefault(n.target.id, []).append((n.lineno, b))
         for k in self.alias_pos: self.alias_pos[k].sort(key=lambda x: x[0])
         self.alias = _AliasView(self)
+        # arm paths: which branch of which `if` a line lies in (assignments in the other arm are not predecessors)
+        self._arms = []
+        def walk(stmts, path):
+            for st in stmts:
+                self._arms.append((st.lineno, getattr(st, 'end_lineno', st.lineno) or st.lineno, path))
+                if isinstance(st, ast.If):
+                    walk(st.body, path + ((id(st), 0),)); walk(st.orelse, path + ((id(st), 1),))
+                else:
+                    for f in ('body', 'orelse', 'finalbody'):
+                        b = getattr(st, f, None)
+                        if isinstance(b, list) and b and isinstance(b[0], ast.stmt): walk(b, path)
+                    for h in getattr(st, 'handlers', []): walk(h.body, path)
+        walk(self.fi.node.body, ())
+
+    def arm_path(self, line):
+        best = ()
+        for lo, hi, path in self._arms:
+            if lo <= line <= hi and len(path) >= len(best): best = path
+        return best
+
+    @staticmethod
+    def arms_conflict(p, q):
+        dp = dict(p)
+        return any(i in dp and dp[i] != a for i, a in q)
 
     def alias_at(self, key, before=None):
         """latest assignment to key strictly before line `before` (default: the use site)"""
         lim = self.at_line if before is None else before
-        cands = [(ln, v) for ln, v in self.alias_pos.get(key, []) if ln < lim]
+        here = self.arm_path(lim) if lim < 10 ** 9 and getattr(self, '_arms', None) else ()
+        cands = [(ln, v) for ln, v in self.alias_pos.get(key, []) if ln < lim and not self.arms_conflict(self.arm_path(ln), here)]
         if not cands: return None
         best = cands[-1]
         # `if c: a = x else: a = None`: the None branch only makes the value optional
